@@ -298,7 +298,7 @@ func init() {
 		add("", v, "dup")
 	}
 	// property / discriminator field names of the object universe (map keys are tokens)
-	for _, n := range []string{"e", "l", "ls", "m", "x", "s", "sp", "n", "u", "w", "r", "type", "B", "kind"} {
+	for _, n := range []string{"e", "l", "ls", "m", "x", "s", "sp", "n", "u", "w", "r", "type", "B", "kind", "o"} {
 		add("", n, "name")
 	}
 	// integer readings
